@@ -92,7 +92,12 @@ func (h *history) partText(p tsi.VerifIndexPart, flags bool) (entry, string) {
 			e = entry{999999, int(s.TSID & 0xffffff)}
 			t = fmt.Sprintf("?%x", s.TSID)
 		}
-		if !(s.KeyToID && s.IDToKey && s.TagRows == 3) || s.Deleted {
+		// one tag->tsids row per tag and one for the measurement
+		wantRows := 3
+		if ok && e.kid < len(h.info) && h.info[e.kid].phys == wideMst {
+			wantRows = 4
+		}
+		if !(s.KeyToID && s.IDToKey && s.TagRows == wantRows) || s.Deleted {
 			t += fmt.Sprintf("/k%vt%vg%dd%v", s.KeyToID, s.IDToKey, s.TagRows, s.Deleted)
 		}
 		its = append(its, item{e, t})
